@@ -153,6 +153,7 @@ def catalogue(T):
                 t.constants[k] = v
             return t
         f.fresh = fresh
+        f.cls, f.params, f.consts, f.ctor = cls, dict(params or {}), dict(consts or {}), dict(ctor)
         return f
 
     out.append(("Identity", mk("Identity"), np.concatenate([-geo(1e-3, 50, 12)[::-1], geo(1e-3, 50, 12)]), []))
@@ -242,6 +243,44 @@ def present(xs, style):
 
 def flat(v):
     return np.ravel(np.asarray(v, dtype=float))
+
+
+REPARAM_STYLES = ["setattr", "setitem", "params.values", "params-attribute"]
+
+
+def reparam(t, mk, style):
+    """re-parameterise the live instance t to the setting of catalogue entry mk, the way users do it"""
+    kind = REPARAM_STYLES[style % len(REPARAM_STYLES)]
+    if kind == "params.values" and mk.params and len(mk.params) == t.params.nval:
+        t.params.values = [mk.params[str(nm)] for nm in t.params.names]
+    else:
+        for k, v in mk.params.items():
+            if kind == "setattr":
+                setattr(t, k, v)
+            elif kind == "params-attribute":
+                setattr(t.params, k, v)
+            else:
+                t[k] = v
+    for k, v in mk.consts.items():
+        t.constants[k] = v
+    return t
+
+
+def reuse_chains(cat):
+    """(label, previous entry, current entry, style) for every entry and each neighbour of the same class and constructor options:
+    an instance is built and USED with the neighbour's setting, then re-parameterised to the current one (in every style, both
+    from the previous and from the next setting, so that every parameter is raised and lowered)"""
+    out = []
+    for i, (label, mk, xs, bps) in enumerate(cat):
+        k = 0
+        for j in (i - 1, i + 1):
+            if 0 <= j < len(cat) and cat[j][1].cls == mk.cls and cat[j][1].ctor == mk.ctor and \
+                    (cat[j][1].params != mk.params or cat[j][1].consts != mk.consts):
+                for style in range(len(REPARAM_STYLES)):
+                    if (i + style + k) % 2:          # half of the (neighbour, style) pairs per entry
+                        out.append((label, cat[j], cat[i], style))
+                k += 1
+    return out
 
 
 def softmax_rows():
